@@ -73,6 +73,11 @@ def parse_unit(path):
                     d['replace'] = text
                 d['kind'] = 'opaque'
                 f['directives'].append(d)
+            elif kind == 'insert':
+                d = dict(arg)
+                d['text'] = _tag(text, 'GHOST')
+                d['kind'] = 'insert'
+                f['directives'].append(d)
         buf = []
 
     for ln, l in enumerate(lines, 1):
@@ -139,6 +144,8 @@ def parse_unit(path):
             sec = ('none', None)
         elif word == 'opaque':
             sec = ('opaque', parse_kv(rest))
+        elif word == 'insert':
+            sec = ('insert', parse_kv(rest))
         elif word == '#' or word.startswith('#'):
             sec = sec  # comment directive
         else:
